@@ -118,6 +118,15 @@ func (f *FragmentBuffer) pushHandshakeFragments(
 			continue
 		}
 
+		if frag.handshakeHeader.FragmentLength == 0 && frag.handshakeHeader.Length != 0 {
+			// An empty fragment of a non-empty message carries nothing to
+			// assemble. Storing it would occupy its offset and shadow the
+			// real fragment that starts there.
+			buf = buf[end:]
+
+			continue
+		}
+
 		messageFragments, ok := f.cache[frag.handshakeHeader.MessageSequence]
 		if !ok {
 			messageFragments = &fragments{
